@@ -1,0 +1,25 @@
+//go:build verif
+
+// Contracts of package riscv for the gocv verifier (properties C01, C02,
+// C25). Comment-only: no Go code is compiled from this file.
+//
+// Vocabulary: the machine state is (X: x-registers, CSR, MEM, pc). rv_post(c,
+// effs) is component c of the state after applying the effect list effs to
+// the symbolic pre-state by the IR semantics (operands evaluated in the
+// pre-state, stores in list order, an instruction-pointer store is a jump,
+// otherwise pc+4). rv_ref(c, name, word, addr) is the same component as
+// prescribed by the RISC-V unprivileged specification for the instruction
+// called name, encoded as word, at address addr. The contract is checked for
+// every entry o of the six instruction tables, with i.instrType == &o.
+
+package riscv
+
+//@ func (instructionType).validEffects
+//@   requires opcode_matches(o, i.value)
+//@   requires rv_xlen() == 32 ==> i.addr < 4294967296
+//@   requires rv_nowrap(o.name, i.value, i.addr)
+//@   ensures[wellformed] rv_wellformed(result)
+//@   ensures[regs] rv_post("regs", result) == rv_ref("regs", o.name, i.value, i.addr)
+//@   ensures[csr] rv_post("csr", result) == rv_ref("csr", o.name, i.value, i.addr)
+//@   ensures[mem] rv_post("mem", result) == rv_ref("mem", o.name, i.value, i.addr)
+//@   ensures[pc] rv_post("pc", result) == rv_ref("pc", o.name, i.value, i.addr)
